@@ -308,6 +308,29 @@ class TheCheck(Check):
                 s = rstr(0, 80, alpha)
                 rs.append("dupb %s %s %s" % (hexs(s), hexs(rstr(0, 3, alpha)), hexs(rstr(0, 3, alpha))))
         sts.append(Stream("random", rs))
+        # 7b. lengths N-1, N, N+1 around every integer constant of the CURRENT qstring.c (after
+        #     preprocessing: PATH_MAX, buffer sizes, thresholds of fast paths): source length, result length
+        #     and worst-case result length of a replacement each meet the boundary, in all four modes;
+        #     copies of such lengths into blocks of such sizes (seed C19-m9)
+        bo = []
+        nums = [n for n in vlib.source_numbers(["src/utilities/qstring.c"]) if 16 <= n <= (20000 if quick else 1 << 20)]
+        for n in nums:
+            for L in (n - 1, n, n + 1):
+                h = L // 2
+                for mode in ("sr", "sn"):
+                    bo.append("repl %s %s %s %s %d" % (hexs(mode.encode()), hexs(b"a" * L), hexs(b"//"), hexs(b"/"), L + 1))
+                    bo.append("repl %s %s %s %s %d" % (hexs(mode.encode()), hexs(b"a" * (L - 2) + b"//"), hexs(b"//"), hexs(b"/"), L + 1))
+                    bo.append("repl %s %s %s %s %d" % (hexs(mode.encode()), hexs(b"ab" * h), hexs(b"ab"), hexs(b"c"), 2 * h + 1))
+                    bo.append("repl %s %s %s %s %d" % (hexs(mode.encode()), hexs(b"c" * h), hexs(b"c"), hexs(b"ab"), 2 * h + 1))
+                for mode in ("tr", "tn"):
+                    bo.append("repl %s %s %s %s %d" % (hexs(mode.encode()), hexs(b"b" * h), hexs(b"b"), hexs(b"cd"), 2 * h + 1))
+                    bo.append("repl %s %s %s %s %d" % (hexs(mode.encode()), hexs(b"a" * L), hexs(b"b"), hexs(b"c"), L + 1))
+                    bo.append("repl %s %s %s %s %d" % (hexs(mode.encode()), hexs(b"ab" * h), hexs(b"b"), hexs(b""), 2 * h + 1))
+                bo.append("cpy %d %s" % (L, hexs(b"x" * n)))
+                bo.append("cpy %d %s" % (n + 1, hexs(b"x" * L)))
+        self.big_ops += [("boundary", o) for o in bo if self.model_block(o) > MODEL_MAX_BLOCK]
+        bo = [o for o in bo if self.model_block(o) <= MODEL_MAX_BLOCK]
+        sts.append(Stream("source-boundaries", bo, note="constants of the current source: %s" % nums))
         # 8. comma number, IPv4 / e-mail tests, qstrtest, qstrdupf / qstrcatf, qstrunique
         sts += c19_more.streams(self)
         from checks import mtpure
